@@ -1177,3 +1177,64 @@ func queries(keys []string, win int, extra []Hex, pathological bool) []string {
 	}
 	return out
 }
+
+// genPeriodic (C17, round g): three-level tries below a wide root whose second-
+// and third-level inner nodes follow a periodic pattern in breadth-first order —
+// one wide node (11..14 children) followed by p-1 narrow ones (2..3 children) —
+// with the labels of the i-th inner node placed by a policy: lowest bytes,
+// highest bytes, or "word top": bytes that would land on the top bit of a 64-bit
+// bitmap word if the node were stored in a slot of 257 (or 17) bits. The last
+// policy makes every set bit cost a full varint, whatever node kind the builder
+// chooses; the size bound is a worst-case statement, so the worst case is sought.
+func genPeriodic(t *rapid.T, maxN int) []string {
+	p := rapid.IntRange(2, 7).Draw(t, "period")
+	wide := rapid.IntRange(11, 14).Draw(t, "wide")
+	narrow := rapid.IntRange(2, 3).Draw(t, "narrow")
+	policy := pickU(t, "placement", 4) // 0 low, 1 high, 2 word-top/257, 3 word-top/17
+	rootFan := rapid.SampledFrom([]int{256, 128, 64, 17, 11}).Draw(t, "rootfan")
+	phase := rapid.IntRange(0, p-1).Draw(t, "phase")
+	labels := func(ith int) []byte {
+		n := narrow
+		if (ith+phase)%p == 0 {
+			n = wide
+		}
+		used := map[int]bool{}
+		switch policy {
+		case 0:
+		case 1:
+			for b := 255; len(used) < n; b-- {
+				used[b] = true
+			}
+		default:
+			slot := 257
+			if policy == 3 {
+				slot = 17
+			}
+			b0 := ((62-slot*ith)%64 + 64) % 64
+			for m := 0; m < 4 && len(used) < n; m++ {
+				used[b0+64*m] = true
+			}
+		}
+		for b := 0; len(used) < n; b++ {
+			used[b] = true
+		}
+		out := make([]byte, 0, n)
+		for b := 0; b < 256; b++ {
+			if used[b] {
+				out = append(out, byte(b))
+			}
+		}
+		return out
+	}
+	var keys []string
+	third := 1 + rootFan
+	for b0 := 0; b0 < rootFan && len(keys) < maxN; b0++ {
+		for _, b1 := range labels(1 + b0) {
+			for _, b2 := range labels(third) {
+				keys = append(keys, string([]byte{byte(b0 * (256 / rootFan)), b1, b2}))
+			}
+			third++
+		}
+	}
+	return uniqSorted(keys)
+}
